@@ -86,3 +86,62 @@ void addr_of_element(void) { double *p = &gtab[2][3]; *p = 0; }
 /* EXPECT unknown_extern: W=tbl */
 extern void mystery(double *);
 void unknown_extern(void) { mystery(tbl); }
+
+/* ---- atomics (clang: AtomicExpr; __sync_*: builtin calls) ------------------------------------------------------------------------- */
+/* EXPECT atomic_counter: W=counter */
+int atomic_counter(void) { return __atomic_fetch_add(&counter, 1, __ATOMIC_RELAXED); }
+/* EXPECT atomic_store_alias: W=tbl */
+void atomic_store_alias(long v) { long *p = (long *)tbl; __atomic_store_n(p, v, __ATOMIC_SEQ_CST); }
+/* EXPECT sync_counter: W=counter */
+int sync_counter(void) { return __sync_fetch_and_add(&counter, 1); }
+/* EXPECT atomic_local_only: W= */
+int atomic_local_only(void) { int mine = 0; __atomic_store_n(&mine, 3, __ATOMIC_RELAXED); return mine; }
+/* ---- integer <-> pointer round trips ----------------------------------------------------------------------------------------- */
+#include <stdint.h>
+/* EXPECT uintptr_roundtrip: W=tbl */
+void uintptr_roundtrip(void) { uintptr_t u = (uintptr_t)tbl; double *p = (double *)u; *p = 1; }
+/* EXPECT long_offset_roundtrip: W=gtab */
+void long_offset_roundtrip(int i) { long a = (long)&gtab[0][0]; a += 8 * i; *(double *)a = 0; }
+struct H { unsigned long handle; int n; };
+/* EXPECT handle_in_struct: W=gs */
+void handle_in_struct(void) { struct H h; h.handle = (unsigned long)&gs; h.n = 1; ((struct S *)h.handle)->n = 2; }
+/* EXPECT ptrdiff_is_not_a_pointer: W= */
+long ptrdiff_is_not_a_pointer(double *mine) { double loc[4]; long d = &tbl[3] - &tbl[0]; loc[d] = 1; mine[d] = 2; return d; }
+/* ---- the stream of a stdio call is part of the footprint ------------------------------------------------------------------------ */
+/* EXPECTX diag_stderr: X=fprintf@stderr */
+void diag_stderr(void) { fprintf(stderr, "deprecated\n"); }
+/* EXPECTX diag_stdout: X=fprintf@stdout,printf */
+void diag_stdout(void) { fprintf(stdout, "x"); printf("y"); }
+/* EXPECTX diag_unknown_stream: X=fprintf@other,fputs@stderr */
+void diag_unknown_stream(FILE *f) { fprintf(f, "x"); fputs("y", stderr); }
+/* ---- per-argument footprint: a mutator that falls back to a built-in object when handed NULL (VARIANT rows) ---------------------- */
+struct Arr { int n; double *v; };
+static struct Arr builtin_arr;
+/* VARIANT add_dispatch: nonnull=1 */
+/* EXPECT add_dispatch: W=builtin_arr */
+/* EXPECT add_dispatch@user: W= */
+int add_dispatch(double x, struct Arr *a) { if (a == NULL) a = &builtin_arr; a->v[a->n++] = x; return 1; }
+/* VARIANT add_reassigned: nonnull=1 */
+/* EXPECTT add_reassigned@user: W=builtin_arr */
+int add_reassigned(double x, struct Arr *a, struct Arr *b) { a = b; if (!a) a = &builtin_arr; a->n = 0; return 1; }
+/* VARIANT read_dispatch: nonnull=1 */
+/* EXPECTT read_dispatch: W=builtin_arr */
+/* EXPECTT read_dispatch@user: W= */
+int read_dispatch(const char *s, struct Arr *a) {
+  struct Arr *tmp; int i;
+  if (a == NULL) a = &builtin_arr;
+  tmp = malloc(sizeof *tmp);
+  if (tmp == NULL) { return 0; }
+  tmp->n = 0; tmp->v = malloc(64);
+  if (!add_dispatch(1.0, tmp)) goto fail;
+  for (i = 0; i < tmp->n; i++) if (!add_dispatch(tmp->v[i], a)) goto fail;
+  free(tmp->v); free(tmp); return 1;
+fail:
+  free(tmp->v); free(tmp); return 0;
+}
+/* VARIANT read_unchecked: nonnull=1 */
+/* EXPECTT read_unchecked@user: W=builtin_arr */
+int read_unchecked(const char *s, struct Arr *a) { struct Arr *tmp = malloc(sizeof *tmp); add_dispatch(1.0, tmp); return add_dispatch(2.0, a); }
+/* VARIANT read_after_label: nonnull=1 */
+/* EXPECTT read_after_label@user: W=builtin_arr */
+int read_after_label(int c, struct Arr *a) { struct Arr *tmp = NULL; if (c) goto use; tmp = malloc(sizeof *tmp); if (tmp == NULL) return 0; use: return add_dispatch(1.0, tmp); }
